@@ -5,6 +5,7 @@ use biscuit_auth::datalog::{MapKey, SymbolTable, TemporarySymbolTable, Term};
 use std::collections::{BTreeMap, BTreeSet};
 use std::fmt::Write as _;
 
+pub mod datalog;
 pub mod expr;
 
 /// SplitMix64: every random choice of a run derives from one state.
@@ -208,6 +209,12 @@ pub enum G {
     B(bool),
     None_,
     Some_(Box<G>),
+    /// a Coq Record built with its constructor: (constructor, [(field, value)]).
+    /// Gallina: `(ctor v1 v2)`; OCaml: `{ f1 = v1; f2 = v2 }`.
+    R(String, Vec<(String, G)>),
+}
+pub fn rec(ctor: &str, fields: Vec<(&str, G)>) -> G {
+    G::R(ctor.to_string(), fields.into_iter().map(|(f, g)| (f.to_string(), g)).collect())
 }
 pub fn c(name: &str, args: Vec<G>) -> G {
     G::C(name.to_string(), args)
@@ -301,6 +308,19 @@ impl G {
                     s.push(')');
                 }
             }
+            G::R(n, fields) => {
+                if atom {
+                    s.push('(');
+                }
+                s.push_str(n);
+                for (_, a) in fields {
+                    s.push(' ');
+                    a.w_gallina(s, true);
+                }
+                if atom {
+                    s.push(')');
+                }
+            }
         }
     }
 
@@ -312,7 +332,14 @@ impl G {
     fn w_ocaml(&self, s: &mut String) {
         match self {
             G::C(n, args) => {
-                // extracted constructors take one tuple argument
+                // extracted constructors take one tuple argument and are capitalised
+                let n = &{
+                    let mut cs = n.chars();
+                    match cs.next() {
+                        Some(f) => f.to_uppercase().collect::<String>() + cs.as_str(),
+                        None => String::new(),
+                    }
+                };
                 if args.is_empty() {
                     s.push_str(n);
                 } else {
@@ -368,6 +395,18 @@ impl G {
                 s.push_str("(Some ");
                 g.w_ocaml(s);
                 s.push(')');
+            }
+            G::R(_, fields) => {
+                s.push_str("{ ");
+                for (i, (f, a)) in fields.iter().enumerate() {
+                    if i > 0 {
+                        s.push_str("; ");
+                    }
+                    s.push_str(f);
+                    s.push_str(" = ");
+                    a.w_ocaml(s);
+                }
+                s.push_str(" }");
             }
         }
     }
